@@ -235,6 +235,11 @@ theorem C11_full_of_maxPlus1 (h : idxRule = .maxPlus1) : C11_full_statement := b
   rw [h]
   exact indexed_ref_hits_one_maxPlus1 prog m eid i hi
 
+/-- C11, IR side, on the tree as it is now: `createEdge2` numbers a new edge largest + 1 (`idxRule`, regenerated from the source
+    on every run, reduces to `maxPlus1`), so the goal holds for every program.  If the source goes back to `len(ea)` (or to
+    anything the extractor does not recognise) this proof no longer checks. -/
+theorem C11_full : C11_full_statement := C11_full_of_maxPlus1 rfl
+
 /-- the hypothesis is satisfiable and the bound is attained -/
 example : IndicesDistinct [({ id := 1, owner := .root, src := [], dst := [], sa := false, da := true, idx := 0 } : ENode),
                            { id := 2, owner := .root, src := [], dst := [], sa := false, da := true, idx := 1 }] := by
@@ -264,7 +269,7 @@ def labelledX (ir : IR) : List (Nat × Nat) :=
   (ir.edges.filter (·.alive)).filterMap fun e =>
     if (ir.fieldsOf (.edg e.id)).any (fun f => f.name.s == "label" && f.prim == some "X") then some (e.id, e.idx) else none
 
-/-- C11 is false for the rule `index := len(ea)`: after the deletion the new edge gets index 1 again, both remaining edges
+/-- C11 was false for the rule `index := len(ea)` (the tree before fix 735eb7a20): after the deletion the new edge gets index 1 again, both remaining edges
     carry index 1, and the reference `(a -> b)[1]` changes both (replayed on d2: both connections are labelled X) -/
 theorem C11_cx_index_after_delete :
     labelledX (evalWith .count cxProgram) = [(6, 1), (8, 1)] ∧ (evalWith .count cxProgram).errs = [] ∧
